@@ -300,6 +300,34 @@ def _payload_kind(pl):
     return None
 
 
+def ref_aliases(body, l):
+    """locals that hold a `&mut` / `&` to local l itself: `p = &mut l`, copies of p, reborrows `&mut *p` (the parameter of an inlined helper `fn h(flag: &mut bool)`)"""
+    out = set(); changed = True
+    while changed:
+        changed = False
+        for bi, st in body.stmts():
+            d = st['dst']; rv = st['rv']
+            if d['p'] or d['l'] in out: continue
+            if len([x for x in body.defs_of(d['l']) if not (x[0] == 'stmt' and x[2]['dst']['p'])]) != 1: continue      # writes THROUGH the reference are not definitions of it
+            hit = False
+            if rv['k'] == 'ref' and ((rv['pl']['l'] == l and not rv['pl']['p']) or (rv['pl']['l'] in out and rv['pl']['p'] == ['*'])): hit = True
+            elif rv['k'] == 'use' and rv['ops'][0]['k'] in ('copy', 'move') and rv['ops'][0]['pl']['l'] in out and not rv['ops'][0]['pl']['p']: hit = True
+            if hit: out.add(d['l']); changed = True
+    return out
+
+
+def all_defs(body, l):
+    """definitions of local l: direct ones, and assignments through a reference to it (`*flag = v` with `flag = &mut l`), presented as whole definitions of l"""
+    out = list(body.defs_of(l))
+    al = ref_aliases(body, l)
+    if al:
+        for bi, st in body.stmts():
+            if st['dst']['l'] in al and st['dst']['p'] == ['*']:
+                st2 = dict(st); st2['dst'] = {'l': l, 'p': []}
+                out.append(('stmt', bi, st2))
+    return out
+
+
 def origins(body, operand, at_bb=None, uses=None):
     """Where a scalar value comes from, followed backwards over *all* definitions through plain copies,
     `&`-borrows, `Ok(..)`/`Some(..)`/`Continue(..)` wrappers, `?` (Try::branch) and `&`/`&&`.
@@ -334,7 +362,7 @@ def origins(body, operand, at_bb=None, uses=None):
             if uses is not None: uses.setdefault(l, set()).add(ub)
         if 1 <= l <= body.argc:
             leaves.append(('param', 0, l)); continue
-        for k, bi, d in body.defs_of(l):
+        for k, bi, d in all_defs(body, l):
             if not reaches(bi, ub): continue
             if k == 'stmt':
                 if d['dst']['p']: leaves.append(('other', bi, 'partial write')); continue
